@@ -299,6 +299,13 @@ pub fn tx_monitors(h: &Hist, ms: &mut MonState, b: &Obs, line: &str, res: &str, 
                         -s_off, s_ask + r_ask, r_off, delta(b, a, &fcn, ask_d), delta(b, a, "pm", offer_d), -delta(b, a, "pm", ask_d), others,
                         (recv == tx.sender) as u8));
                 }
+                if ty == "ss" {
+                    let gross = ret + sf + pf + bf + ef;
+                    let mut pb2 = pb.clone();
+                    pb2.asset_denoms = pb2.asset_denoms.iter().map(|d| h.w.cd(d)).collect();
+                    out.push(format!("mon_ss_quote {} {} {} {} {}", pool_str(&pb2), offer_d, offer, ask_d, gross));
+                    out.push(format!("mon_ss_swap {} {} {} {} {} {}", pool_str(&pb2), offer_d, offer, ask_d, gross, ret + pf + bf));
+                }
                 if let Some(q) = ms.quote.take() {
                     out.push(format!("mon_quote {} {} {} {} {} {} {} {} {} {}", q.0, q.1, q.2, q.3, q.4, ret, pf, sf, bf, ef));
                 }
